@@ -144,6 +144,11 @@ func runC01(c c01Case) kit.Result {
 				return nil
 			}
 
+			// the same text is first put to a store whose like-named symbols have other types (it may well be ill-typed
+			// there); what it means for this store must not depend on that
+			if f.Kind == "people" {
+				_, _, _ = schema.Twin.QueryIds(tx, text)
+			}
 			// route 1: QueryIds from text
 			ids, count, err := store.QueryIds(tx, text)
 			if err != nil {
